@@ -746,7 +746,10 @@ class CircuitMeasureCount(MetricBase):
         :rtype: float or int
         """
         c = circuit.copy()
-        n = len(c.get_node_by_labels(["MeasurementCNOTandReset"]))
+        if "MeasurementCNOTandReset" in c.node_dict:
+            n = len(c.get_node_by_labels(["MeasurementCNOTandReset"]))
+        else:
+            n = 0
         val = self.m_penalty(n)
         self.increment()
 
